@@ -15,9 +15,10 @@ import (
 
 func init() {
 	register(&propCheck{
-		ID:    "C16",
-		Run:   runC16,
-		Level: "Static analysis (bit-lane / closed-form abstract interpretation of each range helper, every control-flow path separately, with the statement's domain as linear facts). Decides the statement: mask — on every path feasible inside 0 <= first <= last <= 31 the mask helper's result has the closed form 'last-first+1 ones starting at bit first' (shift counts proved within the word, no negative count converted to unsigned); word — both encoders of the offset/width word put the offset in bits 6..15 and width-1 in bits 0..5 with no lane overlap for offset < 1024, 1 <= width <= 64; inverse — the two decoders applied to the encoders' lanes give back offset and width exactly; range — the accessors of a range return first and last-first+1, the two constructors describe the same range (last = offset+width-1), and the range's own word encoder composes to the same lanes. A result that cannot be brought to the specified closed form is reported (violation when a side condition fails, undecided when the shape is outside the engine's language); no value is ever executed or enumerated.",
+		ID:      "C16",
+		Run:     runC16,
+		NeedSSA: true,
+		Level:   "Static analysis (bit-lane / closed-form abstract interpretation of each range helper, every control-flow path separately, with the statement's domain as linear facts). Decides the statement: mask — on every path feasible inside 0 <= first <= last <= 31 the mask helper's result has the closed form 'last-first+1 ones starting at bit first' (shift counts proved within the word, no negative count converted to unsigned); word — both encoders of the offset/width word put the offset in bits 6..15 and width-1 in bits 0..5 with no lane overlap for offset < 1024, 1 <= width <= 64; inverse — the two decoders applied to the encoders' lanes give back offset and width exactly; range — the accessors of a range return first and last-first+1, the two constructors describe the same range (last = offset+width-1), and the range's own word encoder composes to the same lanes. A result that cannot be brought to the specified closed form is reported (violation when a side condition fails, undecided when the shape is outside the engine's language); no value is ever executed or enumerated.",
 		Assumptions: []string{
 			"Go shift semantics: a shift count >= the operand width yields 0; conversion of a negative int to an unsigned type wraps",
 			"domain of the statement: ranges inside a 32-bit register (0 <= first <= last <= 31) for the mask; offset < 1024 and 1 <= width <= 64 for the word",
@@ -31,6 +32,8 @@ type c16Out struct {
 }
 
 func runC16(w *World, r *Report) {
+	r.Rule("stateless", "the range helpers depend on no package-level state that a call can change and hand out no shared object", 8)
+	importStateless(w, r, "stateless")
 	r.Rule("mask", "the mask helper yields exactly the bits of the range on every feasible path", 1)
 	r.Rule("word", "offset in bits 6..15, width-1 in bits 0..5 of the offset/width word", 2)
 	r.Rule("inverse", "the word decoders invert the word encoders", 2)
